@@ -1,5 +1,6 @@
 import CarModel.Proofs.MixedTrunc
 import CarModel.Proofs.V2
+import CarModel.Proofs.V2Prefix
 /-
 C02 — Untrusted reads never yield corrupted or silently truncated content.
 Property theorems only; helper lemmas live in CarModel/Proofs.
@@ -125,6 +126,29 @@ theorem carV2_truncated (H : HashFn) (o : ReadOpts) (seek : Bool) (dp ip : Nat) 
   rcases scan_truncated H o bs ok.blocks k hk with ⟨j, _, he, hs⟩ | ⟨pre, b, post, m, hbs, _, _, _, hs⟩
   · exact ⟨bs.take j, .eof, by rw [hs], Or.inl ⟨rfl, j, rfl, he⟩⟩
   · exact ⟨pre, .unexpectedEOF, by rw [hs], Or.inr ⟨rfl, b, post, hbs⟩⟩
+
+
+/-- (2d) … and a cut anywhere BEFORE the sections — inside the pragma, the 40-byte CARv2 header, the data
+    padding or the inner CARv1 header — is refused at opening, for a seekable source and a plain stream
+    alike: no prefix of a CARv2 that ends before its inner header does is mistaken for an archive. -/
+theorem carV2_container_truncated (o : ReadOpts) (seek : Bool) (dp ip : Nat) (hasIdx fi : Bool)
+    (roots : Option (List Cid)) (secs index : Bytes)
+    (hmax : (encodeHeaderBody ⟨roots, 1⟩).length ≤ o.maxHeader)
+    (h63 : (encodeHeaderBody ⟨roots, 1⟩).length < 2 ^ 63) (h10 : 10 ≤ o.maxHeader)
+    (lok : LayoutOK dp ip (encodeHeader ⟨roots, 1⟩ ++ secs).length)
+    (k : Nat) (hk : k < 51 + dp + (encodeHeader ⟨roots, 1⟩).length) :
+    ∃ e, newBlockReader o seek ((layoutV2 dp ip (encodeHeader ⟨roots, 1⟩ ++ secs) hasIdx fi index).take k)
+      = .error e := by
+  have hp : 0 < (encodeHeader ⟨roots, 1⟩ ++ secs).length := by
+    have := uvarintSize_pos (encodeHeaderBody ⟨roots, 1⟩).length
+    simp only [encodeHeader, List.length_append, uvarint_length]; omega
+  have e : layoutV2 dp ip (encodeHeader ⟨roots, 1⟩ ++ secs) hasIdx fi index
+      = pragma ++ ((finalHeader dp ip (encodeHeader ⟨roots, 1⟩ ++ secs).length hasIdx fi).bytes ++
+          (zeros dp ++ (encodeHeader ⟨roots, 1⟩ ++ (secs ++ (if hasIdx then zeros ip ++ index else []))))) := by
+    simp [layoutV2]
+  rw [e]
+  exact newBlockReader_prefix_cut o seek _ dp roots _ (finalHeader_wf dp ip _ hasIdx fi hp lok)
+    (by simp [finalHeader]) (by simp [finalHeader]) hmax h63 h10 k hk
 
 /-- (2c) **Skipping is scanning too: a CARv1 cut inside a section, any mix of Next and SkipNext, seekable or
     plain source**: the
